@@ -55,9 +55,6 @@ def shards(tier):
     for lo, hi in enumer.string_shards(len(P.TOKENS), b["text_n"], nsh):
         out.append(["text", lo, hi])
     for fam in FAMILIES:
-        if fam == "terms":
-            # the parent must not import hy: `terms` needs no hy to enumerate
-            pass
         for blk in P.blocks(fam, tier):
             out.append(["fam", fam, blk])
     return out
@@ -74,7 +71,6 @@ def observe(m, btempl=False):
     """Run the round trip on one model.  Returns None if the property holds
     for it, else a dict(kind=..., detail=..., **fields)."""
     import hy
-    from hy.reader.exceptions import LexException
     try:
         with time_limit(10):
             t1 = hy.repr(m)
@@ -193,9 +189,11 @@ def classes(m):
                 if len(fc) and isinstance(fc[0], M.Dict):
                     out.append("fcomponent-first-form-dict")
     if isinstance(m, M.Complex):
-        for nm, v in (("real", m.real), ("imag", m.imag)):
-            if v == 0 and math.copysign(1.0, v) < 0:
-                out.append("complex-negative-zero-" + nm)
+        # the imaginary part decides (a negative-zero real part alone is a different class)
+        if m.imag == 0 and math.copysign(1.0, m.imag) < 0:
+            out.append("complex-negative-zero-imag")
+        elif m.real == 0 and math.copysign(1.0, m.real) < 0:
+            out.append("complex-negative-zero-real")
     if isinstance(m, M.Expression) and P.dotted_sugar(m):
         parts = list(m[2:] if (str(m[1]) == "None" and not str(m[0]).strip(".")) else m[1:])
         if any("." in str(p) for p in parts):
